@@ -105,7 +105,7 @@ TEnc ==
 \* one decryption judged by the full specification
 DecOK(e, x) ==
     IF x.wrote
-    THEN e.res = x.res /\ e.mlen = Len(e.c) - 8 /\ e.mout = x.m
+    THEN e.res = x.res /\ (e.res = 0 => e.mlen = Len(e.c) - 8) /\ e.mout = x.m       \* *mlen is only promised on success
     ELSE e.res < 0 /\ e.untouched = 1        \* shorter than a tag: refused, nothing written
 
 TDec ==
@@ -130,7 +130,7 @@ TDecTag ==
     /\ Tr[l].e = "DecTag"
     /\ LET e == Tr[l]
            x == CheckTag(pk.m, pk.tag, e.tag)
-       IN  /\ Judge(pk.set /\ e.res = x.res /\ e.mout = x.m /\ e.mlen = Len(pk.m), l, e, <<x, pk.tag>>)
+       IN  /\ Judge(pk.set /\ e.res = x.res /\ e.mout = x.m /\ (e.res = 0 => e.mlen = Len(pk.m)), l, e, <<x, pk.tag>>)
            /\ Judge(MemOK(e), l, e, "buffer contract: canaries intact, inputs unmodified")
     /\ UNCHANGED <<pk, hist>>
 
@@ -156,7 +156,7 @@ TDecBig ==
        /\ Judge(e.res = -1 => e.nonzero = 0, l, e, "rejected => every plaintext byte zero")
        /\ Judge(e.res = 0 => e.eqplain = 1, l, e, "accepted => exactly the plaintext")
        /\ Judge((e.tamper = 0) <=> (e.res = 0), l, e, "accept iff untampered")
-       /\ Judge(e.mlen = e.clen - 8, l, e, "mlen = clen - 8")
+       /\ Judge(e.res = 0 => e.mlen = e.clen - 8, l, e, "accepted => mlen = clen - 8")
        /\ Judge(e.canary = 1, l, e, "canaries intact")
     /\ UNCHANGED <<pk, hist>>
 
